@@ -9,7 +9,10 @@
 (* Layer P: Idempotent (action property) and Fresh (invariant).                                      *)
 EXTENDS Naturals, Sequences, FiniteSets, TLC
 
-CONSTANTS Versions, Gen, HelperPath, HelperBug, MaxRuns
+CONSTANTS Versions, Gen, HelperPath, HelperBug, MaxRuns,
+          Fails,        \* Fails[v]: the sources of version v contain something typeshare rejects - the run of v ends with an error
+          EagerWrite    \* layer-M switch: TRUE = files of the crates BEFORE the offending one are written before the error is noticed
+                        \* (what a generator that checks crate by crate would do; kept so that TLC can show what that violates)
 VARIABLES fs, clock, last, hist
 
 vars == <<fs, clock, last, hist>>
@@ -27,7 +30,13 @@ WriteAll(store, paths, v, t) ==
     IF paths = {} THEN store
     ELSE LET p == CHOOSE q \in paths : TRUE IN WriteAll(WriteIfChanged(store, p, Gen[v][p], t), paths \ {p}, v, t)
 
-RunOn(store, v, t) == WriteAll(store, DOMAIN Gen[v], v, t)
+\* main.rs: all parse errors are collected and checked BEFORE the first write, so a failing run writes nothing.
+\* With EagerWrite the files that sort before FailAt are written first (the order of write_multiple_files).
+FailAt == "b"
+Before(p) == p = "a"                                                          \* the paths that sort before FailAt
+RunOn(store, v, t) == IF ~Fails[v] THEN WriteAll(store, DOMAIN Gen[v], v, t)
+                      ELSE IF EagerWrite THEN WriteAll(store, {p \in DOMAIN Gen[v] : Before(p)}, v, t)
+                      ELSE store
 Empty == [p \in {} |-> 0]
 
 Init == fs = Empty /\ clock = 0 /\ last = "none" /\ hist = <<>>
@@ -41,9 +50,12 @@ Spec == Init /\ [][Next]_vars
 
 \* ---------------------------------------------------------------- layer P (C17)
 \* what a run into an empty location produces
-FreshContent(v) == LET s == RunOn(Empty, v, 1) IN [p \in DOMAIN s |-> s[p].content]
+\* (a failing run is responsible for no file)
+FreshContent(v) == LET s == (IF Fails[v] THEN Empty ELSE RunOn(Empty, v, 1)) IN [p \in DOMAIN s |-> s[p].content]
 \* re-running with unchanged sources leaves every file byte-identical and untouched
 Idempotent == [][last' = last => fs' = fs]_vars
+\* C08 / C17: a run that fails creates and modifies nothing (bytes and modification times)
+FailedRunTouchesNothing == [][(Len(hist') > Len(hist) /\ Fails[last']) => fs' = fs]_vars
 \* after any history, every file the last run is responsible for has the fresh content
 Fresh == last # "none" => \A p \in DOMAIN FreshContent(last) : p \in DOMAIN fs /\ fs[p].content = FreshContent(last)[p]
 =============================================================================
